@@ -17,8 +17,11 @@
  *
  * Output line (all fields always present, uniformly typed):
  *   e        "reset"|"open"|"read"|"write"|"wbyte"|"zero"|"discard"|"flush"|"close"|"blksize"|"cacheoff"|"cacheon"|
- *            "readahead", or with prefix "o_" for the call made on the undo channel (undo=1), whose nested calls
- *            on the unix channel are printed (before it) as ordinary lines
+ *            "readahead".  With undo=1 the history is applied to the undo channel: every call is bracketed by
+ *              {"e":"o_begin","op","a","b","tags"}  and  {"e":"o_end","op","ret","rc","data","bs","n1"}
+ *            (bs = block size of the undo channel in granules, n1 = number of the last iotrace.so event so far), the
+ *            nested calls undo_io makes on the unix channel are printed in between as ordinary lines, and the calls it
+ *            makes on the undo file's channel as {"e":"u_blksize"|"u_read"|"u_write"|"u_flush"|"u_close","a","b","ret","rc"}
  *   a, b     arguments (granules for wbyte; blocks/count otherwise; bytes/GR for blksize)
  *   ret      0 success, 1 error;  rc = low bits of the error code (information only)
  *   data     tags returned by a read (one per granule), tags = payload of a write (one per granule)
@@ -58,6 +61,7 @@ static int nhb;
 static char *buf;
 static char tbuf[1 << 16];
 static int tlen;
+static long last_n;			/* number (iotrace.so's write-class counter) of the last device event seen */
 
 static void die(const char *m, long c)
 {
@@ -102,11 +106,12 @@ static errcode_t handler(io_channel channel, unsigned long block, int count, con
 }
 
 /* device events appended by iotrace.so since the previous call */
-static void print_events(void)
+static void print_events_q(int quiet)
 {
 	int n, first = 1;
 	char *line, *nl;
-	printf(",\"ev\":[");
+	if (!quiet)
+		printf(",\"ev\":[");
 	if (tfd >= 0) {
 		while ((n = read(tfd, tbuf + tlen, sizeof(tbuf) - 1 - tlen)) > 0)
 			tlen += n;
@@ -127,6 +132,8 @@ static void print_events(void)
 				kind = 4;
 			if ((p = strstr(line, "\"tgt\":")))
 				tgt = atoi(p + 6);
+			if ((p = strstr(line, "\"n\":")) && atol(p + 4) > last_n)
+				last_n = atol(p + 4);
 			if (kind && tgt == 0) {
 				if ((p = strstr(line, "\"off_hi\":"))) hi = atoll(p + 9);
 				if ((p = strstr(line, "\"off_lo\":"))) lo = atoll(p + 9);
@@ -144,8 +151,10 @@ static void print_events(void)
 		tlen = strlen(line);
 		memmove(tbuf, line, tlen + 1);
 	}
-	printf("]");
+	if (!quiet)
+		printf("]");
 }
+static void print_events(void) { print_events_q(0); }
 
 static void print_state(void)
 {
@@ -215,21 +224,25 @@ static void line(const char *e, long long a, long long b, errcode_t rc, const ch
 	printf(",\"cfg\":[%d,%d,%d,%d,%d,%d]}\n", c_wt, c_bounce, c_handler, c_undo, c_dio, c_nocache);
 }
 
-/* a call made on the undo channel: only what the caller sees */
-static void oline(const char *e, long long a, long long b, errcode_t rc, const char *rd, int nrd, const char *wr, int nwr)
+/* a call made on the undo channel: what the caller asks for, and what it sees */
+static void obegin(const char *op, long long a, long long b, const char *wr, int nwr)
 {
-	char name[32];
-	snprintf(name, sizeof(name), "o_%s", e);
-	printf("{\"e\":\"%s\",\"a\":%lld,\"b\":%lld,\"ret\":%d,\"rc\":%ld", name, a, b, rc ? 1 : 0, (long) (rc & 0xffffff));
-	if (rd && !rc)
-		print_tags("data", rd, nrd);
-	else
-		printf(",\"data\":[]");
+	printf("{\"e\":\"o_begin\",\"op\":\"%s\",\"a\":%lld,\"b\":%lld", op, a, b);
 	if (wr)
 		print_tags("tags", wr, nwr);
 	else
 		printf(",\"tags\":[]");
-	printf(",\"bs\":%d}\n", ch ? (int) ch->block_size / GR : 0);
+	printf("}\n");
+}
+static void oend(const char *op, errcode_t rc, const char *rd, int nrd)
+{
+	print_events_q(1);		/* events of the undo file since the last nested call */
+	printf("{\"e\":\"o_end\",\"op\":\"%s\",\"ret\":%d,\"rc\":%ld", op, rc ? 1 : 0, (long) (rc & 0xffffff));
+	if (rd && !rc)
+		print_tags("data", rd, nrd);
+	else
+		printf(",\"data\":[]");
+	printf(",\"bs\":%d,\"n1\":%ld}\n", ch ? (int) ch->block_size / GR : 0, last_n);
 }
 
 static int span(io_channel c, int count)
@@ -314,12 +327,59 @@ static void proxy_sync(io_channel c)
 	c->flags = inner->flags;
 	c->align = inner->align;
 }
+/* ---- second pass-through manager, around the undo file's unix channel: only the outcome of each call is logged ---- */
+static struct struct_io_manager uproxy_mgr;
+static io_channel ufile;
+
+static void uline(const char *e, long long a, long long b, errcode_t rc)
+{
+	printf("{\"e\":\"u_%s\",\"a\":%lld,\"b\":%lld,\"ret\":%d,\"rc\":%ld}\n", e, a, b, rc ? 1 : 0, (long) (rc & 0xffffff));
+}
+static void uproxy_sync(io_channel c)
+{
+	c->block_size = ufile->block_size;
+	c->flags = ufile->flags;
+	c->align = ufile->align;
+}
+static errcode_t up_open(const char *name, int flags, io_channel *channel)
+{
+	io_channel io;
+	errcode_t rc = unix_io_manager->open(name, flags, &ufile);
+	if (rc)
+		return rc;
+	io = calloc(1, sizeof(*io));
+	io->magic = EXT2_ET_MAGIC_IO_CHANNEL;
+	io->manager = &uproxy_mgr;
+	io->name = strdup(name);
+	io->refcount = 1;
+	uproxy_sync(io);
+	*channel = io;
+	return 0;
+}
+static errcode_t up_close(io_channel c)
+{
+	errcode_t rc = io_channel_close(ufile);
+	ufile = NULL;
+	uline("close", 0, 0, rc);
+	free(c->name);
+	free(c);
+	return rc;
+}
+static errcode_t up_set_blksize(io_channel c, int bs) { errcode_t rc = io_channel_set_blksize(ufile, bs); uproxy_sync(c); uline("blksize", bs, 0, rc); return rc; }
+static errcode_t up_read64(io_channel c, unsigned long long b, int n, void *d) { errcode_t rc = io_channel_read_blk64(ufile, b, n, d); (void) c; uline("read", b, n, rc); return rc; }
+static errcode_t up_write64(io_channel c, unsigned long long b, int n, const void *d) { errcode_t rc = io_channel_write_blk64(ufile, b, n, d); (void) c; uline("write", b, n, rc); return rc; }
+static errcode_t up_read(io_channel c, unsigned long b, int n, void *d) { return up_read64(c, b, n, d); }
+static errcode_t up_write(io_channel c, unsigned long b, int n, const void *d) { return up_write64(c, b, n, d); }
+static errcode_t up_flush(io_channel c) { errcode_t rc = io_channel_flush(ufile); (void) c; uline("flush", 0, 0, rc); return rc; }
+static errcode_t up_option(io_channel c, const char *o, const char *a) { errcode_t rc = ufile->manager->set_option(ufile, o, a); uproxy_sync(c); return rc; }
+static errcode_t up_stats(io_channel c, io_stats *st) { (void) c; return ufile->manager->get_stats(ufile, st); }
+
 static errcode_t p_open(const char *name, int flags, io_channel *channel)
 {
 	io_channel io;
 	errcode_t rc;
 	if (strcmp(name, path))
-		return unix_io_manager->open(name, flags, channel);	/* the undo file: not our subject */
+		return up_open(name, flags, channel);	/* the undo file */
 	rc = unix_io_manager->open(name, flags, &inner);
 	if (rc)
 		return rc;
@@ -364,6 +424,13 @@ static void proxy_init(void)
 	proxy_mgr.write_byte = p_wbyte; proxy_mgr.set_option = p_option; proxy_mgr.get_stats = p_stats;
 	proxy_mgr.read_blk64 = p_read64; proxy_mgr.write_blk64 = p_write64; proxy_mgr.discard = p_discard;
 	proxy_mgr.cache_readahead = p_readahead; proxy_mgr.zeroout = p_zeroout;
+	memset(&uproxy_mgr, 0, sizeof(uproxy_mgr));
+	uproxy_mgr.magic = EXT2_ET_MAGIC_IO_MANAGER;
+	uproxy_mgr.name = "verif pass-through (undo file)";
+	uproxy_mgr.open = up_open; uproxy_mgr.close = up_close; uproxy_mgr.set_blksize = up_set_blksize;
+	uproxy_mgr.read_blk = up_read; uproxy_mgr.write_blk = up_write; uproxy_mgr.flush = up_flush;
+	uproxy_mgr.set_option = up_option; uproxy_mgr.get_stats = up_stats;
+	uproxy_mgr.read_blk64 = up_read64; uproxy_mgr.write_blk64 = up_write64;
 }
 
 /* ---- open with the behaviour's configuration ---- */
@@ -478,17 +545,21 @@ int main(int argc, char **argv)
 			die("operation on a closed channel", 0);
 		sscanf(ln, "%*s %lld %lld", &a, &b);
 		/* requests must stay inside the backing file at the block size the channel really has (a failed
-		 * set_blksize leaves the old one); anything else is refused here and logged as "skip" */
+		 * set_blksize leaves the old one); anything else is refused here and logged as "skip".  A failed
+		 * set_blksize on the undo channel leaves it with a block size the real channel does not have: the caller
+		 * has been told, and must set the block size again before it addresses blocks */
 		{
 			long long bsg = ch->block_size / GR, g0 = -1, len = 0;
+			int blockop = 0;
 			if (!strcmp(op, "read") || !strcmp(op, "write")) {
-				g0 = a * bsg; len = b > 0 ? b * bsg : -b;
+				g0 = a * bsg; len = b > 0 ? b * bsg : -b; blockop = 1;
 			} else if (!strcmp(op, "wbyte")) {
-				g0 = a; len = b;
+				g0 = a; len = b; blockop = 1;
 			} else if (!strcmp(op, "zero") || !strcmp(op, "discard") || !strcmp(op, "readahead")) {
-				g0 = a * bsg; len = b * bsg;
+				g0 = a * bsg; len = b * bsg; blockop = 1;
 			}
-			if (g0 >= 0 && (len <= 0 || g0 + len > ng)) {
+			if ((g0 >= 0 && (len <= 0 || g0 + len > ng)) ||
+			    (c_undo && blockop && inner && ch->block_size != inner->block_size)) {
 				printf("{\"e\":\"skip\"}\n");
 				continue;
 			}
@@ -497,51 +568,56 @@ int main(int argc, char **argv)
 			int cnt = b > 0 ? (int) b : (int) b * GR;
 			errcode_t rc;
 			fill(buf, span(ch, cnt), 0x3ffffffe);
-			if (c_undo) { rc = io_channel_read_blk64(ch, a, cnt, buf); oline("read", a, b, rc, buf, span(ch, cnt), NULL, 0); }
+			if (c_undo) { obegin("read", a, b, NULL, 0); rc = io_channel_read_blk64(ch, a, cnt, buf); oend("read", rc, buf, span(ch, cnt)); }
 			else u_read(a, cnt, buf);
 		} else if (!strcmp(op, "write")) {
 			int cnt = b > 0 ? (int) b : (int) b * GR;
 			errcode_t rc;
 			fill(buf, span(ch, cnt), next_tag++);
-			if (c_undo) { rc = io_channel_write_blk64(ch, a, cnt, buf); oline("write", a, b, rc, NULL, 0, buf, span(ch, cnt)); }
+			if (c_undo) { obegin("write", a, b, buf, span(ch, cnt)); rc = io_channel_write_blk64(ch, a, cnt, buf); oend("write", rc, NULL, 0); }
 			else u_write(a, cnt, buf);
 		} else if (!strcmp(op, "wbyte")) {
 			errcode_t rc;
 			fill(buf, (int) b, next_tag++);
-			if (c_undo) { rc = io_channel_write_byte(ch, a * GR, (int) b * GR, buf); oline("wbyte", a, b, rc, NULL, 0, buf, (int) b); }
+			if (c_undo) { obegin("wbyte", a, b, buf, (int) b); rc = io_channel_write_byte(ch, a * GR, (int) b * GR, buf); oend("wbyte", rc, NULL, 0); }
 			else u_wbyte(a * GR, (int) b * GR, buf);
 		} else if (!strcmp(op, "zero")) {
-			if (c_undo) oline("zero", a, b, io_channel_zeroout(ch, a, b), NULL, 0, NULL, 0);
+			if (c_undo) { obegin("zero", a, b, NULL, 0); oend("zero", io_channel_zeroout(ch, a, b), NULL, 0); }
 			else u_zero(a, b);
 		} else if (!strcmp(op, "discard")) {
-			if (c_undo) oline("discard", a, b, io_channel_discard(ch, a, b), NULL, 0, NULL, 0);
+			if (c_undo) { obegin("discard", a, b, NULL, 0); oend("discard", io_channel_discard(ch, a, b), NULL, 0); }
 			else u_discard(a, b);
 		} else if (!strcmp(op, "readahead")) {
-			if (c_undo) oline("readahead", a, b, io_channel_cache_readahead(ch, a, b), NULL, 0, NULL, 0);
+			if (c_undo) { obegin("readahead", a, b, NULL, 0); oend("readahead", io_channel_cache_readahead(ch, a, b), NULL, 0); }
 			else u_readahead(a, b);
 		} else if (!strcmp(op, "flush")) {
-			if (c_undo) oline("flush", 0, 0, io_channel_flush(ch), NULL, 0, NULL, 0);
+			if (c_undo) { obegin("flush", 0, 0, NULL, 0); oend("flush", io_channel_flush(ch), NULL, 0); }
 			else u_flush();
 		} else if (!strcmp(op, "blksize")) {
-			if (c_undo) oline("blksize", a / GR, 0, io_channel_set_blksize(ch, (int) a), NULL, 0, NULL, 0);
+			if (c_undo) { obegin("blksize", a / GR, 0, NULL, 0); oend("blksize", io_channel_set_blksize(ch, (int) a), NULL, 0); }
 			else u_blksize((int) a);
 		} else if (!strcmp(op, "cache")) {
 			char arg[16] = "";
+			const char *nm;
 			sscanf(ln, "%*s %15s", arg);
-			if (c_undo) oline(!strcmp(arg, "off") ? "cacheoff" : "cacheon", 0, 0, ch->manager->set_option(ch, "cache", arg), NULL, 0, NULL, 0);
+			nm = !strcmp(arg, "off") ? "cacheoff" : "cacheon";
+			if (c_undo) { obegin(nm, 0, 0, NULL, 0); oend(nm, ch->manager->set_option(ch, "cache", arg), NULL, 0); }
 			else u_option("cache", arg);
 		} else if (!strcmp(op, "close")) {
 			io_channel c = ch;
-			ch = NULL;
 			if (c_undo) {
 				io_stats st = NULL;
 				errcode_t rc;
 				if (c->manager->get_stats)
 					c->manager->get_stats(c, &st);
+				obegin("close", 0, 0, NULL, 0);
+				ch = NULL;
 				rc = io_channel_close(c);
-				oline("close", 0, 0, rc, NULL, 0, NULL, 0);
-			} else
+				oend("close", rc, NULL, 0);
+			} else {
+				ch = NULL;
 				u_close();
+			}
 		} else
 			die("unknown operation", 0);
 	}
